@@ -71,10 +71,15 @@ type c01Pub struct {
 	qos    byte
 	retain bool
 	props  bool
+	alias  int // 0 none, 1 topic name + Topic Alias 1 (binds or re-binds it), 2 empty topic name + Topic Alias 1
 }
 
 func (p c01Pub) String() string {
-	return fmt.Sprintf("%s:%s q%d ret%v props%v", []string{"p(v5)", "q(v3)", "api"}[p.kind], p.topic, p.qos, p.retain, p.props)
+	s := fmt.Sprintf("%s:%s q%d ret%v props%v", []string{"p(v5)", "q(v3)", "api"}[p.kind], p.topic, p.qos, p.retain, p.props)
+	if p.alias != 0 {
+		s += []string{"", " with-alias-1", " by-alias-1-only"}[p.alias]
+	}
+	return s
 }
 
 func c01Pubs() []c01Pub {
@@ -89,6 +94,10 @@ func c01Pubs() []c01Pub {
 				}
 			}
 		}
+	}
+	// the v5 publisher uses an inbound topic alias: bind, use, re-bind to another topic, use
+	for _, t := range []string{"a", "a/b", "b", "a"} {
+		out = append(out, c01Pub{kind: 0, topic: t, qos: 1, alias: 1}, c01Pub{kind: 0, topic: t, qos: 0, alias: 2}, c01Pub{kind: 0, topic: t, qos: 2, alias: 2})
 	}
 	return out
 }
@@ -337,6 +346,12 @@ func c01World(c *explore.Ctx, mode string, subs []c01Sub, pubs []c01Pub, unsubFi
 				if pub.props {
 					pk.Props = allPubProps()
 				}
+				if pub.alias != 0 {
+					pk.Props = &refmqtt.Props{TopicAlias: harness.U16(1)}
+					if pub.alias == 2 {
+						pk.Topic = ""
+					}
+				}
 				pubc.Send(pk)
 			case 2:
 				m := &gmqtt.Message{Topic: pub.topic, QoS: pub.qos, Retained: pub.retain, Payload: []byte(payload)}
@@ -488,7 +503,7 @@ func c01World(c *explore.Ctx, mode string, subs []c01Sub, pubs []c01Pub, unsubFi
 
 func runC01(c *explore.Ctx) {
 	c.Level = "model_checking"
-	c.Rule = "E2: every subscription table of 1..2 (thorough: a third from a reduced set) subscriptions over {s1(v5), s2(v3.1.1), p(v5, publishes itself)} x 6 filters x QoS x {plain, NoLocal, RAP, id1, id2, NoLocal+RAP+id1}, in both delivery modes; each table is installed on a fresh in-process broker through real SUBSCRIBE packets, then the whole publish battery (v5 client / v3 client / Publisher API x 4 topics x QoS x retain x properties) is sent, every delivery acknowledged; after each publish every socket is compared with the expected multiset of copies (count, QoS, RETAIN, subscription ids, properties), publication order and publisher acks. states = tables installed, transitions = publishes checked."
+	c.Rule = "E2: every subscription table of 1..2 (thorough: a third from a reduced set) subscriptions over {s1(v5), s2(v3.1.1), p(v5, publishes itself)} x 6 filters x QoS x {plain, NoLocal, RAP, id1, id2, NoLocal+RAP+id1}, in both delivery modes; each table is installed on a fresh in-process broker through real SUBSCRIBE packets, then the whole publish battery (v5 client / v3 client / Publisher API x 4 topics x QoS x retain x properties, then the v5 client publishing through an inbound topic alias that is bound, used, re-bound to another topic and used again) is sent, every delivery acknowledged; after each publish every socket is compared with the expected multiset of copies (count, QoS, RETAIN, subscription ids, properties), publication order and publisher acks. states = tables installed, transitions = publishes checked."
 	c.Trusted = []string{"vsched default schedule (0 deviations)", "refmqtt codec and matcher"}
 	c.Assumptions = []string{"onlyonce mode with matching subscriptions that disagree on Retain-As-Published: either RETAIN value is accepted (statement silent)", "queue 1000, no packet size limit, default 2h message expiry: no documented drop condition is active"}
 	cands := c01Candidates(false)
